@@ -212,6 +212,16 @@ func c20Apply(root any, m c20Mut, idx int, dir string, r *c20Render) any {
 		return c20Set(root, n.path, ref("#/info/title"), false)
 	case "ref_array_elem":
 		return c20Set(root, n.path, ref("#/servers/0"), false)
+	case "ref_array_len": // index == length of the array
+		return c20Set(root, n.path, ref("#/servers/1"), false)
+	case "ref_array_beyond":
+		return c20Set(root, n.path, ref("#/servers/7"), false)
+	case "ref_array_neg":
+		return c20Set(root, n.path, ref("#/servers/-1"), false)
+	case "ref_array_nonnum":
+		return c20Set(root, n.path, ref("#/servers/x"), false)
+	case "ref_deep_array_len":
+		return c20Set(root, n.path, ref("#/components/schemas/Err/allOf/2"), false)
 	case "ref_escaped_ptr":
 		return c20Set(root, n.path, ref("#/paths/~1items~1%7Bid%7D/get/responses/4XX"), false)
 	case "ref_hash_only":
